@@ -545,6 +545,18 @@ def scn(sym, cov, props, D, T=2, cancel=None, cancel2=None, toggle=None, stubbor
                     bad("C06", "deadline-fired-at-wrong-time", {"level": i, "ref": rf, "observed": inter[0]["tout"]})
             cov.hit("deadline-fired", True)
             cov.hit("deadline-in-the-past-at-entry", rf == [x for x in timeline if x[2] == "enter" and x[3] == i][0][1] and not changed)
+        if rf is not None and fired:
+            # never missed also means: delivered.  An operation entered strictly after the tick at which the deadline fired,
+            # with no shield between it and this scope, cannot complete normally
+            for o in ops:
+                if o["level"] < i or o["out"] is None or o["tin"] <= rf:
+                    continue
+                _ca, shd_ = state_at(o["pin"])
+                if any(shd_.get(j) for j in range(i + 1, o["level"] + 1)):
+                    continue
+                if o["out"] != "cancelled":
+                    bad("C06", "operation-completed-in-scope-whose-deadline-had-fired", {"deadline_level": i, "fired_at": rf, "op": (o["level"], o["which"]), "entered_at": o["tin"]})
+                cov.hit("operation-after-deadline-fired-interrupted", o["out"] == "cancelled")
         if helper in ("move_on_after", "move_on_at") and i == D - 1:
             if bool(e["caught"]) != bool(fired and e["raised"] == "cancel" and not e["passed"]):
                 bad("C06", "move_on-cancelled_caught-wrong", {"caught": e["caught"], "fired": fired})
